@@ -857,7 +857,14 @@ def _units(ctx):
             cond = K.controlling(node, graph)
             consts.append((val.value if isinstance(val, ast.Constant)
                            else None, cond, node))
-    default = [c for c in consts if "'B'" not in c[1]]
+    def decimal_branch(cond):
+        # the assignment runs on the outcome "the unit ends in 'B'"
+        if "'B'" not in cond:
+            return False
+        positive = "!= 'B'" not in cond and "not " not in cond.split(
+            '->')[0]
+        return cond.rstrip().endswith('-> true') == positive
+    default = [c for c in consts if not decimal_branch(c[1])]
     ctx.ob('C01.7', s2b, default[0][2] if default else None,
            len(default) == 1 and default[0][0] == 1024,
            'binary base for un-suffixed units is %s' % (
